@@ -26,6 +26,25 @@ SIZE_ERRORS = ("DimensionMismatchError", "WrongDimensionalityError", "ShapeMisma
 
 def role(node, params):
     """'self' | 'other' | None for an operand expression inside an operator method."""
+    # a name bound by `for a, b in zip(A, B)` stands for an element of A / B; a local built by a helper from `other`
+    # stands for `other`
+    if isinstance(node, ast.Name):
+        q_ = parent(node)
+        while q_ is not None and not isinstance(q_, (ast.FunctionDef, ast.AsyncFunctionDef)):
+            gens = q_.generators if isinstance(q_, (ast.ListComp, ast.GeneratorExp, ast.SetComp)) else [q_] if isinstance(q_, ast.For) else []
+            for g in gens:
+                if isinstance(g.target, ast.Tuple) and isinstance(g.iter, ast.Call) and dotted(g.iter.func) == "zip" and len(g.target.elts) == len(g.iter.args):
+                    for t_, a_ in zip(g.target.elts, g.iter.args):
+                        if isinstance(t_, ast.Name) and t_.id == node.id:
+                            return role(a_, params)
+                elif isinstance(g.target, ast.Name) and g.target.id == node.id:
+                    return role(g.iter, params)
+            q_ = parent(q_)
+        fn = q_
+        if fn is not None:
+            vals = [v for v in local_assignments(fn).get(node.id, []) if isinstance(v, ast.AST)]
+            if len(vals) == 1 and not (isinstance(vals[0], ast.Name) and vals[0].id == node.id):
+                return role(vals[0], params)
     s = src(node)
     names = {n.id for n in ast.walk(node) if isinstance(n, ast.Name)}
     other = params[1] if len(params) > 1 else "other"
@@ -99,6 +118,47 @@ def _operators(prog, rep):
             s = src(neg.node)
             ok = "UnaryOp(self, 'neg')" in s or "[-" in s or "-self._variables[i][j]" in s or "-expr" in s
             rep.ob("R11.1", f"{cname}.__neg__", ok, "negates every element / builds the neg node" if ok else "__neg__ does not negate", loc=neg.loc, detail="neg")
+    # reflected operators reached by NumPy arrays: a container that sets __array_ufunc__ = None makes `array - x` call
+    # x.__rsub__(array).  If that method broadcasts `other` whole to every element (BinaryOp(_ensure_expr(other), elem, op)
+    # in a per-element loop, `other` never indexed / zipped / handed to the pairing helper), the result's elements are
+    # array - x_i each: a list of arrays, not NumPy's element-wise difference.
+    for cname in ("VectorVariable", "VectorExpression"):
+        ci = prog.cls(cname)
+        defers = any(isinstance(st, ast.Assign) and any(isinstance(t, ast.Name) and t.id == "__array_ufunc__" for t in st.targets) and isinstance(st.value, ast.Constant) and st.value.value is None for st in ci.node.body)
+        if not defers:
+            continue
+        for mname in ("__rsub__", "__rtruediv__", "__rpow__"):
+            m = ci.methods.get(mname)
+            if m is None or len(m.node.args.args) < 2:
+                continue
+            other = m.node.args.args[1].arg
+            uses = [n for n in ast.walk(m.node) if isinstance(n, ast.Name) and n.id == other and isinstance(n.ctx, ast.Load)]
+            whole_in_loop = []
+            handled = False
+            for n in uses:
+                p_ = parent(n)
+                # handed to a helper / tested / converted: the method looks at what `other` is
+                if isinstance(p_, ast.Call) and (dotted(p_.func) or "") not in ("_ensure_expr", "Constant", "float"):
+                    handled = True
+                if isinstance(p_, ast.Subscript) and p_.value is n:
+                    handled = True
+                q_ = p_
+                in_comp = False
+                while q_ is not None and q_ is not m.node:
+                    if isinstance(q_, (ast.ListComp, ast.GeneratorExp, ast.For)):
+                        in_comp = True
+                    q_ = parent(q_)
+                if in_comp and isinstance(p_, ast.Call) and (dotted(p_.func) or "") in ("_ensure_expr", "Constant"):
+                    whole_in_loop.append(n)
+            if handled:
+                rep.ob("R11.2", f"{cname}.{mname}", True, f"`{other}` is examined / paired by a helper before elements are built", loc=m.loc, detail="reflected-array-operand", robust=True)
+            elif whole_in_loop:
+                rep.ob("R11.2", f"{cname}.{mname}", False,
+                       f"{cname} sets __array_ufunc__ = None, so `array {ARITH.get(mname[3:-2], '?')} vector` lands here with the whole array in `{other}`; the method wraps `{other}` once per element (`{src(parent(whole_in_loop[0]))[:40]}` inside the element loop) without pairing it element by element or checking its size: "
+                       f"np.array([10, 20, 30]) - x evaluates to three arrays instead of [10 - x0, 20 - x1, 30 - x2]",
+                       loc=f"{m.module.rel}:{whole_in_loop[0].lineno}", detail="reflected-array-operand", robust=True)
+            else:
+                rep.undecided(f"{cname}.{mname}: how `{other}` reaches the elements is not readable")
     # matmul family: array on the side it was written
     VV = prog.cls("VectorVariable")
     rm = VV.methods.get("__rmatmul__")
@@ -262,6 +322,15 @@ def _truncation(prog, rep):
         for c in calls(fi.node):
             if dotted(c.func) == "zip" and len(c.args) == 2:
                 has_guard = any(isinstance(n, ast.If) and "!=" in src(n.test) and any(k in src(n.test) for k in ("len(", ".size", ".shape")) and (_raises_size_error(n.body) or "return None" in src(n.body)) for n in walk_local(fi.node))
+                if not has_guard:
+                    # one of the zipped lists is produced by a package helper that raises a size error (it is given the other's size)
+                    asg_ = local_assignments(fi.node)
+                    for a_ in c.args:
+                        for v_ in ([a_] + [x for x in asg_.get(a_.id, []) if isinstance(x, ast.AST)] if isinstance(a_, ast.Name) else [a_]):
+                            if isinstance(v_, ast.Call) and isinstance(v_.func, ast.Name):
+                                for h_ in prog.find_func(v_.func.id):
+                                    if _raises_size_error(h_.node.body):
+                                        has_guard = True
                 tie = fi.name in tied
                 rep.ob("R11.2", f"{fi.qual.split(':')[1]}:zip({src(c.args[0])[:20]}, {src(c.args[1])[:20]})", has_guard or tie,
                        "sizes are checked in this function" if has_guard else (f"sizes are tied by {tied.get(fi.name)}" if tie else "zip() of two element lists without any size check in the function: the longer operand is silently truncated"),
